@@ -18,7 +18,7 @@ theorem prof_window_src : prof_window = "uint(conf.RPS), time.Second" := by deci
 theorem prof_resp_weight_src : prof_resp_weight = "datasize.ByteSize(resp.Len()) / r.respSzEst" := by decide
 /-- The profile limiter applies to the profile's subnets only (all clients when none are set). -/
 theorem prof_subnet_cond_src :
-    prof_subnet_cond = "len(r.clientSubnets) > 0 && !r.clientSubnets.Contains(remoteIP)" := by decide
+    prof_subnet_cond = "len(r.clientSubnets) > 0 && !r.clientSubnets.Contains(remoteIP.WithZone(\"\"))" := by decide
 /-- Only the configured protocols (plain DNS) are rate limited. -/
 theorem mw_proto_gate_src : mw_proto_gate = "!slices.Contains(mw.protos, ri.Proto)" := by decide
 /-- `Update` replaces the dynamic networks. -/
@@ -46,5 +46,44 @@ with the decoded ones; a failed one returns the error before `Update`. -/
 theorem consul_host_prefix_src : consul_host_prefix = "r.Address.Prefix(r.Address.BitLen())" := by decide
 theorem consul_update_args_src : consul_update_args = "consulNets" := by decide
 theorem consul_refresh_returns_src : consul_refresh_returns = "err | nil" := by decide
+
+/-! ## Round 3: zone handling and the glue that configures the limiters -/
+
+/-- `DynamicAllowlist.IsAllowed` compares the address without its IPv6 zone (the `fix:` commit;
+`netip.Prefix.Contains` is false for every zoned address). -/
+theorem allowlist_zone_strip_src : allowlist_zone_strip = "ip.WithZone(\"\")" := by decide
+
+def cmdBackoffConfExpected : String :=
+  "&ratelimit.BackoffConfig{ Allowlist: al, ResponseSizeEstimate: c.ResponseSizeEstimate, Duration: c.BackoffDuration.Duration, Period: c.BackoffPeriod.Duration, IPv4Count: c.IPv4.Count, IPv4Interval: c.IPv4.Interval.Duration, IPv4SubnetKeyLen: c.IPv4.SubnetKeyLen, IPv6Count: c.IPv6.Count, IPv6Interval: c.IPv6.Interval.Duration, IPv6SubnetKeyLen: c.IPv6.SubnetKeyLen, Count: c.BackoffCount, RefuseANY: c.RefuseANY, }"
+set_option maxRecDepth 16384 in
+/-- `cmd`: every configuration value reaches the `BackoffConfig` field of the same meaning (no
+v4/v6, count/interval or period/duration mix-up between the YAML structure and the limiter). -/
+theorem cmd_backoff_conf_src : cmd_backoff_conf = cmdBackoffConfExpected := by decide
+/-- `cmd`: the configured list is the persistent part of the allowlist, the dynamic part starts empty,
+and the limiter is built from that configuration and that allowlist object. -/
+theorem builder_persistent_allowlist_src : builder_persistent_allowlist = "allowSubnets, nil" := by decide
+theorem builder_new_backoff_src : builder_new_backoff = "c.toInternal(allowlist)" := by decide
+
+/-- The backend allowlist refresher: the response's `AllowedSubnets`, converted, replace the dynamic
+networks. -/
+theorem backend_allowed_subnets_src : backend_allowed_subnets = "backendResp.AllowedSubnets" := by decide
+theorem backend_prefixes_src :
+    backend_prefixes = "cidrRangeToInternal(ctx, l.errColl, l.logger, allowedSubnets)" := by decide
+theorem backend_update_args_src : backend_update_args = "prefixes" := by decide
+/-- A backend CIDR keeps its address bytes and its prefix length. -/
+theorem pb_cidr_prefix_src : pb_cidr_prefix = "addr, int(c.Prefix)" := by decide
+
+/-- Profile settings (backend and file cache): no settings or `Enabled = false` ⇒ the global limiter;
+otherwise a limiter with the profile's `Rps` and its converted client subnets. -/
+theorem pb_ratelimit_global_cond_src : pb_ratelimit_global_cond = "x == nil || !x.Enabled" := by decide
+theorem fc_ratelimit_global_cond_src : fc_ratelimit_global_cond = "x == nil || !x.Enabled" := by decide
+def pbRatelimitReturnsExpected : String :=
+  "agd.GlobalRatelimiter{} | agd.NewDefaultRatelimiter(&agd.RatelimitConfig{ ClientSubnets: cidrRangeToInternal(ctx, errColl, logger, x.ClientCidr), RPS: x.Rps, Enabled: x.Enabled, }, respSzEst)"
+set_option maxRecDepth 16384 in
+theorem pb_ratelimit_returns_src : pb_ratelimit_returns = pbRatelimitReturnsExpected := by decide
+def fcRatelimitReturnsExpected : String :=
+  "agd.GlobalRatelimiter{} | agd.NewDefaultRatelimiter(&agd.RatelimitConfig{ ClientSubnets: cidrRangeToInternal(x.ClientCidr), RPS: x.Rps, Enabled: x.Enabled, }, respSzEst)"
+set_option maxRecDepth 16384 in
+theorem fc_ratelimit_returns_src : fc_ratelimit_returns = fcRatelimitReturnsExpected := by decide
 
 end Agd.Tie.C09
